@@ -114,9 +114,9 @@ package unserializers
 //@ func CDX.unserializeExternalReferences
 //@   props C02, C04
 //@   assigns \nothing
-//@   ensures cap(result) == 0 || fresh(arr(result))
-//@   invariant L0: cap(ret) == 0 || fresh(arr(ret))
-//@   invariant L1: cap(ret) == 0 || fresh(arr(ret))
+//@   ensures fresh(arr(result))
+//@   invariant L0: fresh(arr(ret))
+//@   invariant L1: fresh(arr(ret))
 //@   ensures [C02:cdx:extrefs:fresh] forall a int :: 0 <= a && a < len(result) ==> result[a] != nil && fresh(result[a]) && result[a].Hashes != nil && fresh(result[a].Hashes)
 //@   ensures [C02:cdx:extrefs:count] (cdxReferences == nil ==> len(result) == 0) && (cdxReferences != nil ==> len(result) == len(*cdxReferences))
 //@   ensures [C02:cdx:extrefs:scalars] cdxReferences != nil ==> (forall a int :: 0 <= a && a < len(result) ==> result[a] != nil && result[a].Url == (*cdxReferences)[a].URL && result[a].Comment == (*cdxReferences)[a].Comment && result[a].Type == CDX.cdxExtRefTypeToProtobomType(nil, (*cdxReferences)[a].Type))
